@@ -238,6 +238,10 @@ class FunctionRun:
 
     def oblige(self, st, kind, goal, node=None, label='', expect='unsat', detail=''):
         line = getattr(node, 'lineno', 0) if node is not None else 0
+        if ops.CTX.pending:
+            # definitional axioms of array symbols created since the last drain belong to every later obligation
+            st.assume(*ops.CTX.pending)
+            del ops.CTX.pending[:]
         n = self.counter.get(kind, 0)
         self.counter[kind] = n + 1
         ob = Obligation(self.fname, kind, label, st.pc, goal, line, expect, detail)
@@ -283,6 +287,7 @@ class FunctionRun:
                 st.assume(*st.heap.wf_graph(v.t))
         if any(isinstance(v.ty, TGraph) for v in st.env.values() if isinstance(v, Val)):
             st.assume(*st.heap.wf_refs())
+            st.assume(*self.bonding_invariant(st, st.heap))
         # ghosts
         for g, (ty, init) in c.ghosts.items():
             st.env[g] = ops.coerce(self.spec_expr(init, st, None), parse_type(ty))
@@ -298,12 +303,49 @@ class FunctionRun:
         self.finish(outs)
         return self.obligations
 
+    # ---- data (type) invariant of the 'bonding' attribute: every stored descriptor is kind + label + order digit
+    def descr_ok_term(self, st, d):
+        sf = self.spec_funcs
+        dv = Val(TStr, d)
+        parts = []
+        for name in ('kind_ok', 'ends_in_digit'):
+            sp = sf[name]
+            parts.append((sp.opaque(self, st, dv) if name in self.c.opaque else sp.smt(self, st, dv)).t)
+        return z3.And(*parts)
+
+    def bonding_invariant(self, st, heap):
+        if 'descriptors' not in self.c.heap_invariants:
+            return []
+        from .heap import T_LSTR
+        g, n, j = z3.Int(fresh_name('ig')), z3.Int(fresh_name('in')), z3.Int(fresh_name('ij'))
+        lst = heap.get('nv:bonding')[g][n]
+        self.bound_names.extend([g.decl().name(), n.decl().name(), j.decl().name()])
+        try:
+            ok = self.descr_ok_term(st, T_LSTR.arr(lst)[j])
+        finally:
+            del self.bound_names[-3:]
+        return [z3.ForAll([g, n, j], z3.Implies(z3.And(heap.get('nh:bonding')[g][n], 0 <= j, j < T_LSTR.length(lst)), ok),
+                          patterns=[T_LSTR.arr(lst)[j]])]
+
+    def check_bonding_write(self, st, list_term, node):
+        if 'descriptors' not in self.c.heap_invariants:
+            return
+        from .heap import T_LSTR
+        j = z3.Int(fresh_name('wj'))
+        self.bound_names.append(j.decl().name())
+        try:
+            ok = self.descr_ok_term(st, T_LSTR.arr(list_term)[j])
+        finally:
+            del self.bound_names[-1:]
+        goal = z3.ForAll([j], z3.Implies(z3.And(0 <= j, j < T_LSTR.length(list_term)), ok))
+        self.oblige(st, 'type-inv', goal, node, 'bonding-descriptors', detail='every element written to a bonding list is a well-formed descriptor')
+
     def _writable_pred(self, mod_terms, fresh_from):
         def pred(g, comps=None):
             alts = [g >= fresh_from]
             for m, cs in mod_terms:
                 if cs is None or (comps is not None and all(c in cs for c in comps)):
-                    alts.append(g == m)
+                    alts.append(m(g) if callable(m) else g == m)
             return z3.Or(*alts)
         return pred
 
@@ -314,6 +356,7 @@ class FunctionRun:
             if ':' in text:
                 expr, comps = text.split(':', 1)
                 cs = set()
+                text = expr
                 for c in comps.split(','):
                     c = c.strip()
                     if c.startswith('attr:'):
@@ -342,9 +385,21 @@ class FunctionRun:
                         cs.update(['hase', 'elist', 'eidx'])
                     else:
                         raise Unsupported('unknown frame component ' + c)
-                out.append((self.spec_expr(expr, st, old).t, cs))
             else:
-                out.append((self.spec_expr(text, st, old).t, None))
+                cs = None
+            text = text.strip()
+            if text.startswith('graphs_of(') and text.endswith(')'):
+                # every graph stored under the 'graph' attribute of a node of G (in the state the frame is evaluated in)
+                owner = self.spec_expr(text[len('graphs_of('):-1], st, old).t
+                heap = st.heap
+
+                def member(g, owner=owner, heap=heap):
+                    k = z3.Int(fresh_name('gk'))
+                    return z3.Exists([k], z3.And(heap.has_node(owner, k), heap.nhas(owner, k, 'graph'),
+                                                 heap.nval(owner, k, 'graph') == g))
+                out.append((member, cs))
+            else:
+                out.append((self.spec_expr(text, st, old).t, cs))
         return out
 
     def finish(self, outs):
@@ -657,26 +712,23 @@ class FunctionRun:
 
     def _havoc_heap(self, st, mod_terms, before, fresh_from=None):
         """Replace the heap by an arbitrary one that agrees with `before` on every graph outside the frame."""
-        touched = [k for k in before.c.keys()]
-        if not touched:
-            return
-        new = Heap(tag=fresh_name('H'))
+        new = Heap(tag=fresh_name('H'), parent=before)
         g = z3.Int(fresh_name('fg'))
         old_next = before.get('next_gid')
         fresh_from = fresh_from if fresh_from is not None else old_next
-        for comp in before.components():
-            if comp not in before.c:
-                # untouched so far: keep sharing the same unconstrained constant
-                continue
+        # every component the frame allows to change (for some graph) gets a fresh value; all others stay shared
+        touched_now = [c for c in before.components() if any(cs is None or c in cs for m, cs in mod_terms)]
+        for comp in touched_now:
+            new.c[comp] = z3.Const('%s.%s' % (new.tag, comp), new.sort_of(comp))
+        new.c['next_gid'] = z3.Const('%s.next_gid' % new.tag, z3.IntSort())
+        for comp in touched_now:
             may_change = [m for m, cs in mod_terms if cs is None or comp in cs]
-            outside = z3.And(g < fresh_from, *[g != m for m in may_change])
+            outside = z3.And(g < fresh_from, *[(z3.Not(m(g)) if callable(m) else g != m) for m in may_change])
             st.assume(z3.ForAll([g], z3.Implies(outside, new.get(comp)[g] == before.get(comp)[g]),
                                 patterns=[new.get(comp)[g]]))
-        for comp in before.components():
-            if comp not in before.c:
-                new.c[comp] = before.get(comp)
         st.assume(new.get('next_gid') >= old_next)
         st.assume(*new.wf_refs())
+        st.assume(*self.bonding_invariant(st, new))
         st.heap = new
 
     def loop_spec(self, s):
@@ -689,6 +741,29 @@ class FunctionRun:
             raise Unsupported('for/else')
         k, spec = self.loop_spec(s)
         it = self.ev(s.iter, st)
+        items = None
+        if isinstance(it, Val) and isinstance(it.ty, TTuple):
+            items = [Val(e, it.ty.field(it.t, j)) for j, e in enumerate(it.ty.elems)]
+        elif type(it).__name__ == 'PyList':
+            items = list(it.items)
+        if items is not None and spec is None:
+            # a loop over a fixed, statically known number of items is unrolled (no invariant needed)
+            live, done = [st], []
+            for item in items:
+                nxt = []
+                for x in live:
+                    self.assign(s.target, item, x, s)
+                    for y in self.exec_block(s.body, [x]):
+                        if y.flow in (None, 'continue'):
+                            y.flow = None
+                            nxt.append(y)
+                        elif y.flow == 'break':
+                            y.flow = None
+                            done.append(y)
+                        else:
+                            done.append(y)
+                live = nxt
+            return live + done
         seq = self.models.as_sequence(self, st, it, s.iter)
         if spec is not None and spec.over is not None:
             src = ast.unparse(s.iter)
@@ -698,6 +773,8 @@ class FunctionRun:
             raise StaleContract('loop %d is a for loop, contract expects while' % k)
         ghost = '_i%d' % k
         inv = spec.invariant if spec else []
+        for gname in self.c.ghosts:
+            st.env['_e%d_%s' % (k, gname)] = st.env[gname]      # value of each ghost at this activation's entry
         # 1. invariant on entry
         st.env[ghost] = Val(TInt, z3.IntVal(0))
         for j, e in enumerate(inv):
@@ -721,6 +798,10 @@ class FunctionRun:
         if spec is not None and spec.modifies is not None and mods is not None:
             body.writable = self._writable_pred(mods, st.heap.get('next_gid'))
         self.assign(s.target, seq.getter(i), body, s)
+        for j, lm in enumerate(spec.pre_lemmas if spec else []):
+            goal = self.spec_bool(lm, body, self.entry)
+            self.oblige(body, 'lemma', goal, s, 'L%d.pre%d' % (k, j), detail=lm)
+            body.assume(goal)
         outs = []
         after_loop = []
         for x in self.exec_block(s.body, [body]):
@@ -853,7 +934,12 @@ class FunctionRun:
         m = getattr(self, 'ex_' + type(e).__name__, None)
         if m is None:
             raise Unsupported('expression %s' % type(e).__name__)
-        return m(e, st, spec, old)
+        ops.CTX.depth = len(self.bound_names)
+        v = m(e, st, spec, old)
+        if ops.CTX.pending:
+            st.assume(*ops.CTX.pending)
+            del ops.CTX.pending[:]
+        return v
 
     def ex_Constant(self, e, st, spec, old):
         return lift(e.value)
